@@ -6,6 +6,9 @@
 #include <gmssl/sm4.h>
 #include <gmssl/pkcs8.h>
 #include <gmssl/rand.h>
+#ifdef SM9
+#include <gmssl/sm9.h>
+#endif
 #include "verif.h"
 static int g_draws, g_fail_at = -1, g_failed; static uint8_t g_d[2][16];
 int rand_bytes(uint8_t *buf, size_t len)
@@ -17,7 +20,12 @@ int rand_bytes(uint8_t *buf, size_t len)
 	return 1;
 }
 static int g_emitted; static uint8_t e_salt[16], e_iv[16], c_iv[16], k_salt[16];
+#ifdef SM9
+int sm9_sign_master_key_to_der(const SM9_SIGN_MASTER_KEY *msk, uint8_t **out, size_t *outlen) { memset(*out, 7, 20); *out += 20; *outlen += 20; return 1; }
+int sm9_private_key_info_to_der(int alg, int params, const uint8_t *prikey, size_t prikey_len, uint8_t **out, size_t *outlen) { memset(*out, 8, 30); *out += 30; *outlen += 30; return 1; }   /* static in the unit; built with -Dstatic= */
+#else
 int sm2_private_key_info_to_der(const SM2_KEY *key, uint8_t **out, size_t *outlen) { memset(*out, 7, 20); *out += 20; *outlen += 20; return 1; }
+#endif
 int sm3_pbkdf2(const char *pass, size_t passlen, const uint8_t *salt, size_t saltlen, size_t count, size_t outlen, uint8_t *out)
 { __CPROVER_assert(saltlen == 16 && outlen == 16, "kdf sizes"); memcpy(k_salt, salt, 16); memset(out, 9, outlen); return 1; }
 void sm4_set_encrypt_key(SM4_KEY *key, const uint8_t raw[16]) { }
@@ -30,9 +38,14 @@ size_t strlen(const char *s) { return 3; }
 void h_pkcs8_encrypt(void)
 {
 	g_fail_at = nondet_int(); ASSUME(g_fail_at >= -1 && g_fail_at <= 2);
-	SM2_KEY key; memset(&key, 0, sizeof(key));
 	uint8_t buf[64]; uint8_t *p = buf; size_t outlen = 0;
+#ifdef SM9
+	SM9_SIGN_MASTER_KEY key; memset(&key, 0, sizeof(key));
+	int ret = sm9_sign_master_key_info_encrypt_to_der(&key, "abc", &p, &outlen);
+#else
+	SM2_KEY key; memset(&key, 0, sizeof(key));
 	int ret = sm2_private_key_info_encrypt_to_der(&key, "abc", &p, &outlen);
+#endif
 	if (g_failed) { CHECK(ret != 1, "entropy failure (salt or IV) is reported"); CHECK(g_emitted == 0, "nothing is emitted after a failed draw"); }
 	if (ret == 1) {
 		V_COVER("pkcs8 success path");
